@@ -71,8 +71,18 @@ class Uninit:
 def S(pystr): return SStr([ord(c) for c in pystr])
 def NONE(): return Adt(0, [])
 def SOME(v): return Adt(1, [v])
-def OK(v): return Adt(0, [v])
-def ERR(v): return Adt(1, [v])
+def OK(v): return Adt(0, [v], 'Result')
+def ERR(v): return Adt(1, [v], 'Result')
+def adt_kind(d):
+    """'some' / 'none' / 'ok' / 'err' for Option and Result values (built by models or by MIR), else None"""
+    if not isinstance(d, Adt) or isinstance(d.variant, str): return None
+    ty = d.ty or ''
+    if ty == 'Result' or '::Result::' in ty or ty.startswith('std::result::Result'): return 'ok' if d.variant == 0 else 'err'
+    if '::Option::' in ty or ty.startswith('std::option::Option'): return 'some' if d.variant == 1 else 'none'
+    if d.ty is None:
+        if d.variant == 1 and len(d.fields) == 1: return 'some'
+        if d.variant == 0 and len(d.fields) == 0: return 'none'
+    return None
 def deref(v): return v.get() if isinstance(v, Ref) else v
 def deref_all(v):
     while isinstance(v, Ref): v = v.get()
